@@ -29,7 +29,9 @@ for f in glob.glob(out + "/gtest/*.xml"):
             passed.add(name)
 try:
     for tc in ET.parse(out + "/ctest.junit.xml").getroot().iter("testcase"):
-        (passed if tc.get("status") == "run" and tc.find("failure") is None else failed).add(tc.get("name"))
+        ok = tc.get("status") == "run" and tc.find("failure") is None
+        for nm in (tc.get("name"), "%s::%s" % (tc.get("classname"), tc.get("name"))):
+            (passed if ok else failed).add(nm)
 except Exception as e:
     print("no ctest junit:", e)
 try:
